@@ -46,19 +46,21 @@ def weights(variant, nn):
 
 def cuts(W):
     """Cut values below, equal to and above exact distances: for {0,1,2} -> 0, 0.5, 1, 2, 3, 1e300."""
-    z, a, b = W
+    a, b = W[1], W[-1]
     return sorted({0, a / 2.0, a, b, a + b, 1e300})
 
 
 # ---------------------------------------------------------------------------
 # alphabet of edges and enumeration of edge lists
 # ---------------------------------------------------------------------------
-def edge_alphabet(variant, nn, W, selfloops=True):
-    """All (s, t, orientation, weight), simplest first, then listed in the variant's order."""
+def edge_alphabet(variant, nn, W, pairs="all"):
+    """All (s, t, orientation, weight), simplest first, then listed in the variant's order.
+    pairs: "all" = nodes^2 (self-loops included), "noloop" = s != t, "lt" = s < t only (the edge is stored from the
+    lower to the higher node index; the opposite direction of travel is still reached through the orientation)."""
     al = []
     for s in range(nn):
         for t in range(nn):
-            if s == t and not selfloops:
+            if (pairs == "noloop" and s == t) or (pairs == "lt" and not s < t):
                 continue
             for o in ORIENTS:
                 for w in W:
@@ -67,6 +69,7 @@ def edge_alphabet(variant, nn, W, selfloops=True):
 
 
 def covers(edges, nn):
+    """Every node is an end point of some edge."""
     seen = set()
     for e in edges:
         seen.add(e[0])
@@ -74,27 +77,42 @@ def covers(edges, nn):
     return len(seen) == nn
 
 
-def edge_lists(al, ne, lo=0, hi=None, cover_nn=None):
-    """Ordered edge lists of length ne whose FIRST edge is al[lo:hi] (the whole alphabet for the others)."""
+def connected(edges, nn):
+    """The undirected graph on all nn nodes is connected (orientations ignored)."""
+    comp = list(range(nn))
+    for e in edges:
+        a, b = comp[e[0]], comp[e[1]]
+        if a != b:
+            comp = [a if c == b else c for c in comp]
+    return len(set(comp)) == 1
+
+
+_FILTERS = {"cover": covers, "connected": connected}
+
+
+def edge_lists(al, ne, lo=0, hi=None, nn=None, need=None):
+    """Ordered edge lists of length ne whose FIRST edge is al[lo:hi] (the whole alphabet for the others);
+    need = None | "cover" | "connected" keeps only the lists with that property on nn nodes."""
     if ne == 0:
-        if lo == 0:
+        if lo == 0 and (not need or nn <= 1):
             yield ()
         return
+    flt = _FILTERS[need] if need else None
     first = al[lo:hi]
     for f in first:
         for rest in itertools.product(al, repeat=ne - 1):
             es = (f,) + rest
-            if cover_nn is not None and not covers(es, cover_nn):
+            if flt is not None and not flt(es, nn):
                 continue
             yield es
 
 
-def count_edge_lists(al, ne, lo=0, hi=None, cover_nn=None):
-    if cover_nn is None:
+def count_edge_lists(al, ne, lo=0, hi=None, nn=None, need=None):
+    if not need:
         if ne == 0:
             return 1 if lo == 0 else 0
         return len(al[lo:hi]) * len(al) ** (ne - 1)
-    return sum(1 for _ in edge_lists(al, ne, lo, hi, cover_nn))
+    return sum(1 for _ in edge_lists(al, ne, lo, hi, nn, need))
 
 
 # ---------------------------------------------------------------------------
@@ -158,6 +176,7 @@ _assert_unique_interiors()
 # the real object
 # ---------------------------------------------------------------------------
 _KEEP = ("id", "coord")
+_ABSENT = "<absent>"
 
 
 class Graph(object):
@@ -188,19 +207,20 @@ class Graph(object):
 
     # -- the complete mutable state under queries --------------------------------
     def canon(self):
+        """Hashable form of the complete mutable state: every node attribute except id/coord, + DISTANCES."""
         out = []
         for n in self.nodes:
-            row = []
-            for k in sorted(n.__dict__):
-                if k in _KEEP:
-                    continue
-                v = n.__dict__[k]
-                if isinstance(v, Node):
-                    v = ("node", v.id)
-                elif isinstance(v, float) and v != v:
-                    v = "nan"
-                row.append((k, v))
-            out.append(tuple(row))
+            d = n.__dict__
+            if len(d) == 2:
+                out.append(())                    # fresh node: no routing flag yet
+                continue
+            a = d.get("antecedent", _ABSENT)
+            if a.__class__ is Node:
+                a = ("node", a.id)
+            row = (d.get("poids", _ABSENT), d.get("visite", _ABSENT), a, d.get("antecedent_edge", _ABSENT))
+            if len(d) != 6 or row[0] != row[0]:
+                row = self._canon_slow(d)
+            out.append(row)
         D = self.net.DISTANCES
         if D is not None:
             try:
@@ -208,6 +228,20 @@ class Graph(object):
             except Exception:
                 D = repr(D)
         return (tuple(out), D)
+
+    @staticmethod
+    def _canon_slow(d):
+        row = []
+        for k in sorted(d):
+            if k in _KEEP:
+                continue
+            v = d[k]
+            if isinstance(v, Node):
+                v = ("node", v.id)
+            elif isinstance(v, float) and v != v:
+                v = "nan"
+            row.append((k, v))
+        return tuple(row)
 
     def snapshot(self):
         D = self.net.DISTANCES
@@ -361,50 +395,32 @@ def run_history(mk, fire, hist):
     return g, res
 
 
-def history_bfs(ctx, gid, mk, events, fire, judge, max_depth, closure_depth=2, hasher=hash):
+def history_bfs(ctx, gid, mk, events, fire, judge, max_depth, hasher=hash):
     """BFS over histories of `events` on the network built by mk().
 
     judge(hist, ev, res, g) -> keep?   is called for every transition (g is the live graph after the event;
-    False prunes below the new state).  Returns (number of states, depth at which no new state appeared or None).
+    False prunes below the new state).  Returns (number of states, first depth at which the expansion produced
+    no new state, or None when that did not happen within max_depth).
     """
-    root = mk()
-    k0 = root.canon()
+    g = mk()
+    k0 = g.canon()
     seen = {k0}
     ctx.state(hasher((gid, k0)))
-    topo = root.topo0
-    frontier = []
-    # depth 1: every event on its own freshly built network (genuine root-to-state histories)
-    for ev in events:
-        g = mk()
-        res = fire(g, ev)
-        ctx.transition()
-        ctx.trace()
-        keep = judge((), ev, res, g)
-        k = g.canon()
-        if g.topology() != topo:
-            raise RuntimeError("a query changed the topology tables of the network: %r %r" % (gid, ev))
-        if k in seen:
-            continue
-        seen.add(k)
-        ctx.state(hasher((gid, k)))
-        if keep:
-            frontier.append(((ev,), k, g))
-    closed = None
-    depth = 1
+    frontier = [((), k0, g.snapshot())]
+    depth = 0
+    ne = len(events)
     while frontier and depth < max_depth:
         nxt = []
-        for si, (hist, k, g) in enumerate(frontier):
-            snap = g.snapshot()
-            check_i = (si + depth) % len(events)
+        for si, (hist, k, snap) in enumerate(frontier):
+            check_i = (si + depth) % ne
             for ei, ev in enumerate(events):
-                if ei:
-                    g.restore(snap)
+                g.restore(snap)
                 res = fire(g, ev)
                 ctx.transition()
                 keep = judge(hist, ev, res, g)
                 k2 = g.canon()
                 if ei == check_i:
-                    # the same history from scratch on a fresh network: validates the in-place restore
+                    # the same history from scratch on a freshly built network: validates the in-place restore
                     g2, res2 = run_history(mk, fire, hist + (ev,))
                     ctx.trace()
                     if g2.canon() != k2 or repr(res2) != repr(res):
@@ -415,14 +431,10 @@ def history_bfs(ctx, gid, mk, events, fire, judge, max_depth, closure_depth=2, h
                 seen.add(k2)
                 ctx.state(hasher((gid, k2)))
                 if keep:
-                    g3, _ = run_history(mk, fire, hist + (ev,))
-                    nxt.append((hist + (ev,), k2, g3))
-            if g.topology() != topo:
-                raise RuntimeError("a query changed the topology tables of the network: %r" % (gid,))
+                    nxt.append((hist + (ev,), k2, g.snapshot()))
         depth += 1
         frontier = nxt
-        if not frontier and closed is None:
-            closed = depth
-    if not frontier and closed is None:
-        closed = depth
+    if g.topology() != g.topo0:
+        raise RuntimeError("a query changed the topology tables of the network: %r" % (gid,))
+    closed = depth if not frontier else None
     return len(seen), closed
